@@ -8,7 +8,7 @@
     validates it on every generated case. *)
 From Coq Require Import List NArith ZArith QArith Bool.
 From MxlBase Require Import ListX.
-From Codegen Require Import Codegen CodegenSpec CallArity.
+From Codegen Require Import Codegen CodegenSpec CallArity NameScope.
 Import ListNotations.
 Open Scope Q_scope.
 
@@ -66,11 +66,17 @@ Definition fsemQ (f : fnid) (args : list Q) : option Q :=
   | 35%N, [a; _] => Some (a * 2)                         (* u_starhelper *)
   | 36%N, [a] => Some (a * (2 * 3))                      (* u_empty_helper *)
   | 37%N, [] => Some (2 * 3)                             (* u_empty_top *)
+  (* module-level float constants c_half = 1/2, c_gain = 4 read as globals / shadowed by a parameter or local *)
+  | 38%N, [a] => Some (a * (1 # 2) + 4)                  (* m_const: both read as globals *)
+  | 39%N, [a; ch] => Some (a * ch + 4)                   (* m_param: PARAMETER c_half *)
+  | 40%N, [a; b] => Some (let ch := a + b in ch * a - 4) (* m_local: LOCAL c_half *)
+  | 41%N, [a; cg] => Some (let r := a * cg in let cg' := r + (1 # 2) in cg' * 2)   (* m_rebind *)
+  | 42%N, [a; b] => Some ((a * b + (1 # 2)) - 4)         (* m_helper: k_shadow(s, c_gain) = s * c_gain + c_half *)
   | _, _ => None
   end.
 
-(** harness/c07_fns.py : TRANSLATABLE = {0..15} + {19..27} *)
-Definition translatesQ (f : fnid) : bool := N.ltb f 16 || (N.leb 19 f && N.leb f 27).
+(** harness/c07_fns.py : TRANSLATABLE = {0..15} + {19..27} + {38..42} *)
+Definition translatesQ (f : fnid) : bool := N.ltb f 16 || (N.leb 19 f && N.leb f 27) || (N.leb 38 f && N.leb f 42).
 
 Definition isemQ (_ : lang) (f : fnid) (args : list Q) : option Q :=
   if translatesQ f then fsemQ f args else None.
@@ -133,6 +139,30 @@ Definition generateQ := generate Q translatesQ.
 Definition generate_againQ := generate_again Q translatesQ.
 Definition execQ := exec Q 0 Qplus Qmult isemQ.
 Definition cache_afterQ := cache_after Q.
+
+(** ---- module constants and the names that shadow them (harness/c07_fns.py ids 38..42) --------
+    Descriptions for the model of _handle_name (NameScope.v); the same descriptions are regenerated
+    from the Python source by harness/c07_scope.py and compared (scope correspondence below).
+    Identifier codes: c_half = 9106, c_gain = 9107, r = 9108 (c_missing = 9109: defined nowhere). *)
+Definition id_ch : name := 9106%N.
+Definition id_cg : name := 9107%N.
+Definition id_r : name := 9108%N.
+(** the float constants of harness/c07_fns.py *)
+Definition fn_globals : globals Q := [(id_cg, 4); (id_ch, 1 # 2)].
+
+Definition scope_entry (f : fnid) : option (sfn Q) :=
+  match f with
+  | 38%N => Some (mkSFn [id_a] [] (TAdd (TMul (TSym id_a) (TSym id_ch)) (TSym id_cg)))                   (* m_const *)
+  | 39%N => Some (mkSFn [id_a; id_ch] [] (TAdd (TMul (TSym id_a) (TSym id_ch)) (TSym id_cg)))            (* m_param *)
+  | 40%N => Some (mkSFn [id_a; id_b] [(id_ch, TAdd (TSym id_a) (TSym id_b))]
+                        (TSub (TMul (TSym id_ch) (TSym id_a)) (TSym id_cg)))                              (* m_local *)
+  | 41%N => Some (mkSFn [id_a; id_cg] [(id_r, TMul (TSym id_a) (TSym id_cg)); (id_cg, TAdd (TSym id_r) (TSym id_ch))]
+                        (TMul (TSym id_cg) (TNum 2)))                                                     (* m_rebind *)
+  | _ => None        (* 42 m_helper calls a helper: judged by the oracle and by [fsemQ] only *)
+  end.
+
+Definition translate_forQ := translate_for Q.
+Definition py_runQ := py_run Q Qplus Qminus Qmult.
 
 (** ---- comparison helpers ---------------------------------------------------------------- *)
 Definition Qlist_eqb (a b : list Q) : bool := list_eqb Qeq_bool a b.
@@ -342,6 +372,48 @@ Definition check_acase (bk : bind_kind) (c : acase) : list nat :=
                   end
       | None => []
       end).
+
+(** ---- scope correspondence: the model of _handle_name against the REAL fn_to_sympy ----------
+    [sc_fn] / [sc_globals] are regenerated from the Python source (parameters, the assignments, the
+    return expression; the module's float constants); the model passes [sc_k] arguments.
+    aspects: 1 refused or not, 2 free symbols of the translation, 3 its value, 4 CPython's value of
+    the function (incl. UnboundLocalError / NameError = None), 5 the hand-written [scope_entry] /
+    [fsemQ] / [fn_globals] *)
+Record spoint := mkSPt { sp_args : list Q; sp_tr : option Q; sp_py : option Q }.
+Record scase := mkSCase {
+  sc_fid : option fnid; sc_globals : globals Q; sc_fn : sfn Q; sc_k : nat;
+  sc_refused : bool; sc_syms : list name; sc_points : list spoint
+}.
+
+Definition check_scase (nk : name_kind) (bk : bind_kind) (c : scase) : list nat :=
+  let r := translate_forQ nk bk (sc_globals c) (sc_fn c) (map TSym (margs (sc_k c))) in
+  (match r, sc_refused c with Some _, false | None, true => [] | _, _ => [1%nat] end)
+  ++ (match r with
+      | Some e => (if list_eqb N.eqb (sort_names (syms Q e)) (sc_syms c) then [] else [2%nat])
+                  ++ (if forallb (fun p => optQ_eqb (tevalQ (fun n => assoc n (combine (margs (sc_k c)) (sp_args p))) e) (sp_tr p))
+                                 (sc_points c)
+                      then [] else [3%nat])
+      | None => []
+      end)
+  ++ (if forallb (fun p => optQ_eqb (py_runQ (sc_globals c) (sc_fn c) (sp_args p)) (sp_py p)) (sc_points c) then [] else [4%nat])
+  ++ (match sc_fid c with
+      | Some f => match scope_entry f with
+                  | Some e => if forallb (fun p => optQ_eqb (py_runQ fn_globals e (sp_args p)) (sp_py p)) (sc_points c)
+                                 && forallb (fun p => optQ_eqb (fsemQ f (sp_args p)) (sp_py p)) (sc_points c)
+                                 && Bool.eqb (match translate_forQ nk bk fn_globals e (map TSym (margs (sc_k c))) with Some _ => true | None => false end)
+                                             (match r with Some _ => true | None => false end)
+                              then [] else [5%nat]
+                  | None => [5%nat]
+                  end
+      | None => []
+      end).
+
+Fixpoint smismatches_from (nk : name_kind) (bk : bind_kind) (i : nat) (cs : list scase) : list nat :=
+  match cs with
+  | [] => []
+  | c :: r => map (fun a => (i * 8 + a)%nat) (check_scase nk bk c) ++ smismatches_from nk bk (S i) r
+  end.
+Definition smismatches_of (nk : name_kind) (bk : bind_kind) (cs : list scase) : list nat := smismatches_from nk bk 0 cs.
 
 Fixpoint amismatches_from (bk : bind_kind) (i : nat) (cs : list acase) : list nat :=
   match cs with
